@@ -182,3 +182,58 @@ Definition spec_table (d : db) (n : string) : option (list string * list row) :=
   | Some t => Some (map fd_name (tb_schema t), tb_rows t)
   | None => None
   end.
+
+(* ---- row-operation prefixes of one statement (C03): the states in which only the first i
+   row operations of the statement, in the order the statement applies them, have happened ---- *)
+Fixpoint update_first (i : nat) (w : option expr) (sch : schema) (cols : list string) (vals : list value)
+         (rows : list row) : res (list row) :=
+  match rows with
+  | [] => Ok []
+  | r :: rest =>
+      do m <- matches w sch r;
+      if m then
+        match i with
+        | O => Ok (r :: rest)
+        | S i' => do more <- update_first i' w sch cols vals rest; Ok (build_row sch cols vals r :: more)
+        end
+      else do more <- update_first i w sch cols vals rest; Ok (r :: more)
+  end.
+
+Fixpoint delete_first (i : nat) (w : option expr) (sch : schema) (rows : list row) : res (list row) :=
+  match rows with
+  | [] => Ok []
+  | r :: rest =>
+      do m <- matches w sch r;
+      if m then
+        match i with
+        | O => Ok (r :: rest)
+        | S i' => delete_first i' w sch rest
+        end
+      else do more <- delete_first i w sch rest; Ok (r :: more)
+  end.
+
+Definition ok_dbs (r : sres) : list db := match r with SpecOk d => [d] | SpecErr _ => [] end.
+
+Definition stmt_prefixes (d : db) (st : stmt) : list db :=
+  match st with
+  | SInsert n cols rows =>
+      flat_map (fun i => ok_dbs (spec_exec d (SInsert n cols (firstn i rows)))) (seq 0 (S (length rows)))
+  | SUpdate n sets w =>
+      match find_tbl n d with
+      | None => [d]
+      | Some t =>
+          let vals := map (fun sv => match snd sv with XLit v => v | _ => VNull end) sets in
+          flat_map (fun i => match update_first i w (tb_schema t) (map fst sets) vals (tb_rows t) with
+                             | Ok rows => [set_rows n rows d] | _ => [] end)
+                   (seq 0 (S (length (tb_rows t))))
+      end
+  | SDelete n w =>
+      match find_tbl n d with
+      | None => [d]
+      | Some t =>
+          flat_map (fun i => match delete_first i w (tb_schema t) (tb_rows t) with
+                             | Ok rows => [set_rows n rows d] | _ => [] end)
+                   (seq 0 (S (length (tb_rows t))))
+      end
+  | _ => [d] ++ ok_dbs (spec_exec d st)
+  end.
